@@ -199,6 +199,13 @@ def run(chk):
     sh = common_utils.shard(tree)
     key = f'C20:shard:b={b}'
     chk.count(key)
+    # 64-bit host leaves (ids, timestamps, precise floats): shard is a reshape, the values and the dtype survive
+    wide = {'id': (np.arange(b, dtype=np.int64) + 2 ** 40), 't': np.linspace(0.1, 0.2, b, dtype=np.float64) + 1e-12}
+    shw = common_utils.shard(wide)
+    for kk in wide:
+      gotw = np.asarray(shw[kk])
+      if gotw.shape != (ndev, per) or not np.array_equal(gotw.reshape(-1), wide[kk]):
+        chk.violation(key + ':64-bit-leaves', f'shard changed the values of a {wide[kk].dtype} leaf (result dtype {gotw.dtype})', {'b': b})
     for got, x in ((sh['a'], tree['a']), (sh['n'][0], tree['n'][0])):
       got = np.asarray(got)
       ok = got.shape == (ndev, per) + x.shape[1:]
